@@ -251,6 +251,9 @@ type c01CredSpec struct {
 	Issued   time.Time
 	Expires  *time.Time
 	NoProof  bool
+	// JSON-LD: the proof's own options, independent of the credential's dates (nil = created at issuance, no expiry: what the node's issuer does)
+	ProofCreated *time.Time
+	ProofExpires *time.Time
 }
 
 func c01URIs(l ...string) []ssi.URI {
@@ -294,7 +297,11 @@ func (f *c01Fixture) signCredential(x *h.Ctx, s c01CredSpec) vc.VerifiableCreden
 	m := map[string]interface{}{}
 	b, _ := json.Marshal(tpl)
 	_ = json.Unmarshal(b, &m)
-	signed, err := proof.NewLDProof(proof.ProofOptions{Created: s.Issued}).Sign(ctx, m, signature.JSONWebSignature2020{ContextLoader: f.jsonld.DocumentLoader(), Signer: f.keyStore}, s.KID)
+	proofOptions := proof.ProofOptions{Created: s.Issued, Expires: s.ProofExpires}
+	if s.ProofCreated != nil {
+		proofOptions.Created = *s.ProofCreated
+	}
+	signed, err := proof.NewLDProof(proofOptions).Sign(ctx, m, signature.JSONWebSignature2020{ContextLoader: f.jsonld.DocumentLoader(), Signer: f.keyStore}, s.KID)
 	x.NoErr(err, "sign JSON-LD credential")
 	sb, _ := json.Marshal(signed)
 	out, err := vc.ParseVerifiableCredential(string(sb))
